@@ -207,6 +207,11 @@ def substitute_shapes(isa, tier, max_m=3, max_n=3):
                 ps = sorted({0, b - 1}) if tier == 'quick' else sorted(set([0] + list(range(max(0, b - k), b + 1)) + [DEEP[isa]]))
             ps = sorted(set(p for p in ps if 0 <= p and p + k <= MAXVARS[isa]))
             for old in itertools.product(KINDS if tier == 'thorough' else ['ext', 'prd'], repeat=n):
+                if tier != 'thorough':
+                    # quick tier: two kinds per position, but the object kind alternates between producer and consumer
+                    # (closures and continuations are `cns`), so a dependence on the chirality of a counted variable
+                    # shows for dropped, moved and duplicated variables alike (round-14 seed C11f)
+                    old = tuple(('cns' if (k_ == 'prd' and i_ % 2 == 1) else k_) for i_, k_ in enumerate(old))
                 for mp in (all_maps(m, n) if n > 0 else [[]]):
                     for p in ps:
                         out.append({'kind': 'substitute', 'p': p, 'old': list(old), 'map': mp})
